@@ -409,7 +409,18 @@ pub fn apply_lib(l: &mut Locale, op: &Op) -> Ret {
         }
     }
     match op {
-        Op::SetLanguage(a) => match Language::from_bytes(a) {
+        // the language is built by one of the three public constructors (from_bytes, TryFrom<Option<_>>, FromStr), chosen by
+        // the length of the argument so that a replay makes the same choice: they must agree on every text
+        Op::SetLanguage(a) => match {
+            use std::convert::TryFrom;
+            match (a.len() % 3, std::str::from_utf8(a)) {
+                (0, _) => Language::try_from(Some(a.as_slice())).ok(),
+                (1, Ok(t)) => t.parse::<Language>().ok(),
+                _ => Language::from_bytes(a).ok(),
+            }
+        }
+        .ok_or(())
+        {
             Ok(x) => {
                 l.id.language = x;
                 Ret::Unit
